@@ -1896,10 +1896,12 @@ func (c *Conn) readHeader(b []byte, res *fasthttp.Response, trailers bool) (err 
 				continue
 			}
 
-			if res != nil {
+			// What an informational response carries (103 Early Hints and its
+			// Link fields, say) is not part of the response that follows it.
+			if res != nil && !interim {
 				res.Header.SetContentLength(n)
 			}
-		} else if res != nil {
+		} else if res != nil && !interim {
 			res.Header.AddBytesKV(hf.KeyBytes(), hf.ValueBytes())
 		}
 	}
